@@ -7,6 +7,8 @@ import Pyunicorn.Lemmas.RandomF
 import Pyunicorn.Lemmas.RandomG
 import Pyunicorn.Lemmas.RandomH
 import Pyunicorn.Lemmas.RandomI
+import Pyunicorn.Lemmas.RandomJ
+import Pyunicorn.Lemmas.RandomK
 /-!
 # C17 — random models and rewirings keep their documented invariants
 
@@ -1003,6 +1005,68 @@ theorem configuration_exact_of_simple (n : Nat) (es : List (Nat × Nat)) (degree
     deg (simplified es) n v = degree v := by
   rw [simplified_of_simple n es hs, deg_linkAny n es hs v, hinc v]
 
+/-! ### round 5: `ErdosRenyi` / `WattsStrogatz` — prescribed link count -/
+
+/-- **the adjacency matrix pyunicorn reads out of an igraph generator** (`ErdosRenyi`,
+`WattsStrogatz`: `np.array(graph.get_adjacency(type=2).data)`): if igraph's graph is simple on `n` nodes
+(its contract — trusted, checked on every call by the harness), the matrix exists (no index out of
+range), is symmetric and loop-free, contains exactly the listed links, every node has as many
+neighbours as incident links, and the matrix has **exactly twice as many ones as the graph has links**. -/
+theorem generator_adjacency_spec (n : Nat) (es : List (Nat × Nat)) (hs : SimpleEdges n es) :
+    ∃ F, fromEdges n es = some F ∧ (∀ a b, F a b = F b a) ∧ (∀ a, F a a = false) ∧
+      (∀ a b, F a b = true ↔ ∃ e ∈ es, sameLink e (a, b)) ∧
+      (∀ a b, F a b = true → a < n ∧ b < n) ∧
+      (∀ v, deg F n v = inc es v) ∧ total F n n = 2 * (es.length : Int) := by
+  refine ⟨linkAny es, fromEdges_some n es (fun e he => ⟨(hs.1 e he).1, (hs.1 e he).2.1⟩),
+    ?_, ?_, linkAny_iff es, ?_, deg_linkAny n es hs, total_linkAny n es hs⟩
+  · intro a b
+    simp only [linkAny]
+    congr 1; funext e; grind
+  · intro a
+    cases hc : linkAny es a a with
+    | false => rfl
+    | true =>
+      obtain ⟨e, he, hse⟩ := (linkAny_iff es a a).1 hc
+      have := (hs.1 e he).2.2
+      simp only [sameLink] at hse; omega
+  · intro a b hab
+    obtain ⟨e, he, hse⟩ := (linkAny_iff es a b).1 hab
+    have := hs.1 e he
+    simp only [sameLink] at hse; omega
+
+/-- **the source of the two igraph-backed generators is what the model says** (regenerated on every
+run): the first branch of `ErdosRenyi` is taken iff only `link_probability` is given and calls
+`Erdos_Renyi(n=n_nodes, p=link_probability)`, the second iff only `n_links` is given and calls
+`Erdos_Renyi(n=n_nodes, m=n_links)` (arguments normalised by the translator), `WattsStrogatz` calls
+`Watts_Strogatz(dim=1, size=N, nei=k, p=p)`, and both return the plain adjacency read-out — no
+`simplify()`, no post-processing. -/
+theorem source_generators :
+    (∀ p m, erTest1 p m = (p && !m)) ∧ (∀ p m, erTest2 p m = (!p && m)) ∧
+    erBranch1 = .byProbability ∧ erBranch2 = .byLinkCount ∧
+    erReturn = "np.array(graph.get_adjacency(type=2).data)" ∧
+    wsCall = [("dim", "1"), ("nei", "k"), ("p", "p"), ("size", "N")] ∧
+    wsReturn = "np.array(graph.get_adjacency(type=2).data)" := by
+  refine ⟨fun p m => by cases p <;> cases m <;> rfl, fun p m => by cases p <;> cases m <;> rfl,
+    rfl, rfl, by decide, by decide, by decide⟩
+
+/-- **`Network.ErdosRenyi`: exactly the prescribed number of links.**  The call is refused
+(`ValueError`) exactly when both or neither of `link_probability` / `n_links` are given; with
+`n_links` alone igraph is asked for `m = n_links` links, and for the simple graph with that many links it
+returns (contract) the adjacency matrix has `2·n_links` ones, is symmetric and loop-free.
+(`Network.WattsStrogatz(N, k, p)`: the same read-out; igraph's ring lattice rewiring keeps `N·k` links.) -/
+theorem erdosRenyi_spec (hasP hasM : Bool) (n nLinks : Nat) (es : List (Nat × Nat))
+    (hs : SimpleEdges n es) (hm : erdosRenyiCall hasP hasM = some .byLinkCount → es.length = nLinks) :
+    (erdosRenyiCall hasP hasM = none ↔ hasP = hasM) ∧
+    (erdosRenyiCall hasP hasM = some .byLinkCount ↔ (hasP = false ∧ hasM = true)) ∧
+    ∃ F, fromEdges n es = some F ∧ (∀ a b, F a b = F b a) ∧ (∀ a, F a a = false) ∧
+      (erdosRenyiCall hasP hasM = some .byLinkCount → total F n n = 2 * (nLinks : Int)) := by
+  obtain ⟨F, hF, sym, lf, -, -, -, htot⟩ := generator_adjacency_spec n es hs
+  refine ⟨by cases hasP <;> cases hasM <;> simp [erdosRenyiCall, erTest1, erTest2, erBranch1, erBranch2],
+    by cases hasP <;> cases hasM <;> simp [erdosRenyiCall, erTest1, erTest2, erBranch1, erBranch2],
+    F, hF, sym, lf, ?_⟩
+  intro hc
+  rw [htot, hm hc]
+
 /-! ### draws: "index in range" from the RNG's contract `0 ≤ u < 1` -/
 
 /-- **`np.floor(rd.random() * E)` and `int(random.random() * N)`** (the generated expressions)
@@ -1434,6 +1498,63 @@ theorem geoMethod_defined_binary64 (rnd : Rat → Rat) (hn : B64.Nearest rnd) (m
   simp only
   omega
 
+/-! ### round 5: the executable roundings *are* IEEE round-to-nearest — no hypothesis on the rounding left -/
+
+/-- **the binary64 rounding the driver executes is a round-to-nearest**: for every rational `x` (not
+only multiples of `2^-1074`) no double is nearer to `x` than `rnd64 x`, and `rnd64 x` is a double.
+(Round 4 compared `rnd64` with the hardware on every run but assumed `B64.Nearest` in the theorems.) -/
+theorem rnd64_round_to_nearest : B64.Nearest rnd64 ∧ ∀ x, B64.IsB64 (rnd64 x) :=
+  ⟨rnd64_nearest, rnd64_isB64⟩
+
+/-- **`np.floor(rd.random() * E)` / `int(random.random() * N)` as executed**: for every double
+`0 ≤ u < 1` and every `1 ≤ E < 2^31` the index computed with the *model's own* binary64 product lies in
+`[0, E)` — `draw_in_range_binary64` with its rounding hypothesis discharged. -/
+theorem draw_in_range_rnd64 (u : Rat) (hu : B64.IsB64 u) (h0 : 0 ≤ u) (h1 : u < 1) (E : Int)
+    (hE : 1 ≤ E) (hE31 : E < 2 ^ 31) :
+    (0 ≤ geoDrawR rnd64 u E ∧ geoDrawR rnd64 u E < E) ∧
+    (0 ≤ sparseDrawR rnd64 u E ∧ sparseDrawR rnd64 u E < E) :=
+  draw_in_range_binary64 rnd64 rnd64_nearest u hu h0 h1 E hE hE31
+
+/-- **no IndexError for the draws the driver replays** (`geoMU` / `geoMD` requests: the model gets the
+53-bit RNG values and evaluates `floor(fl64(u·E))` itself) -/
+theorem geoMethod_defined_rnd64 (mode : GeoMode) (D : Nat → Nat → Int) (eps : Int) (n : Nat) (A : Adj)
+    (iterations : Nat) (us : List (Rat × Rat)) (E : Nat)
+    (sym : ∀ i j, A i j = A j i) (lf : ∀ i, A i i = false)
+    (hE : total A n n = 2 * (E : Int)) (hpos : 0 < E) (h31 : (E : Int) < 2 ^ 31)
+    (hu : ∀ u ∈ us, (B64.IsB64 u.1 ∧ 0 ≤ u.1 ∧ u.1 < 1) ∧ (B64.IsB64 u.2 ∧ 0 ≤ u.2 ∧ u.2 < 1)) :
+    ∃ st', geoMethod mode D eps n A iterations
+      (us.map fun u => ((geoDrawR rnd64 u.1 E).toNat, (geoDrawR rnd64 u.2 E).toNat)) = some st' :=
+  geoMethod_defined_binary64 rnd64 rnd64_nearest mode D eps n A iterations us E sym lf hE hpos h31 hu
+
+/-- **the binary32 rounding of the length conditions is a round-to-nearest to 24 bits**: on integers
+(units of `2^-149`) `rndP p` is `rndQ p` with the sign restored, and no `p`-bit number `±m·2^j` is
+nearer to `n` than `rndP p n` — the model of `D[..] - D[..]` in `float` is IEEE-754 subtraction, not
+merely a faithful rounding. -/
+theorem binary32_round_to_nearest (n : Int) (m : Int) (j : Nat) (hm : m.natAbs < 2 ^ 24) :
+    |((rnd32 n : Int) : Rat) - (n : Rat)| ≤ |((m * 2 ^ j : Int) : Rat) - (n : Rat)| :=
+  rndP_nearest 24 (by decide) n m j hm
+
+/-- **ties to even**: when `a` lies exactly midway between its two neighbouring grid points, `rndQ p a`
+(hence `rnd64`, and `rndP` / `rnd32` on integers by `rndP_eq_rndQ`) is the one with the even significand.
+Together with `rnd64_round_to_nearest` / `binary32_round_to_nearest` (nearest, and a `p`-bit number) this
+is the IEEE-754 default rounding, for every argument. -/
+theorem round_ties_to_even (p : Nat) (a : Rat)
+    (h : a - ((a.floor.toNat / 2 ^ gridShift p a.floor.toNat * 2 ^ gridShift p a.floor.toNat : Nat) : Rat)
+       = (((a.floor.toNat / 2 ^ gridShift p a.floor.toNat + 1) * 2 ^ gridShift p a.floor.toNat : Nat) : Rat) - a) :
+    (∃ k, rndQ p a = 2 * k * 2 ^ gridShift p a.floor.toNat) ∧
+    ∀ n : Int, rndP p n = if n < 0 then -((rndQ p (n.natAbs : Rat) : Nat) : Int)
+      else ((rndQ p (n.natAbs : Rat) : Nat) : Int) :=
+  ⟨rndQ_tie_even p a h, rndP_eq_rndQ p⟩
+
+/-- **binary32 overflow is inside the model**: with `mx` the largest finite binary32 number (any
+24-bit number will do), a difference of exact magnitude `≥ mx` — in particular every difference the
+hardware rounds to `±inf`, where `fabsf(inf) < eps` is false — is rejected by the model too, for every
+finite tolerance `eps ≤ mx`.  (Round 4 listed overflow as outside the model; only NaN / `inf`
+*entries* of `D` remain outside.) -/
+theorem binary32_overflow_rejected (mx eps d : Int) (hmx : Rep 24 mx.natAbs) (he : eps ≤ mx)
+    (hd : mx ≤ (d.natAbs : Int)) : ¬ (((rnd32 d).natAbs : Int) < eps) :=
+  rndP_overflow_rejected 24 (by decide) mx eps d hmx he hd
+
 /-! ### `_randomlySetCrossLinks`: termination for fair streams -/
 
 /-- a block of draws offers every cell of the `m × n` cross matrix -/
@@ -1535,5 +1656,37 @@ example : condLenC2 (fun i j => if i = 0 ∧ j = 1 then 16777219 else 0) 1677722
 example : Faithful rnd32 16777220 := binary32_faithful _ ⟨4194305, 2, by decide, by decide⟩
 /-- the largest double below 1 times `E = 3`, rounded to binary64, is still below 3 -/
 example : geoDrawR rnd64 (9007199254740991 / 9007199254740992) 3 = 2 := by decide +kernel
+/-- round 5: `rnd64` on arguments that are *not* multiples of `2^-1074` (1/3, a tie between two
+neighbouring doubles above `2^53`, a negative number) and `rndQ` at ties / just off ties -/
+example : rnd64 (1 / 3) = 6004799503160661 / 18014398509481984
+    ∧ rnd64 9007199254740993 = 9007199254740992 ∧ rnd64 9007199254740995 = 9007199254740996
+    ∧ rnd64 (9007199254740993 + 1 / 3) = 9007199254740994
+    ∧ rnd64 (-9007199254740995) = -9007199254740996 := by decide +kernel
+example : rndQ 3 (17 / 2) = 8 ∧ rndQ 3 9 = 8 ∧ rndQ 3 (9 + 1 / 1000) = 10 ∧ rndQ 3 11 = 12
+    ∧ rndQ 3 (7 / 2) = 4 ∧ rndQ 3 (5 / 2) = 2 ∧ rndQ 3 15 = 16 := by decide +kernel
+/-- the hypotheses of `draw_in_range_rnd64` are satisfiable with a draw that is rounded up to the next
+index boundary's predecessor: `u = 1 - 2^-53`, `E = 3` -/
+example : B64.IsB64 (9007199254740991 / 9007199254740992) :=
+  ⟨9007199254740991, 53, by norm_num, by norm_num, Or.inr ⟨by norm_num, by norm_num⟩⟩
+/-- `binary32_overflow_rejected`: the largest finite binary32 number in units of `2^-149` is
+`(2^24-1)·2^253`; the difference `2^127 - (-2^127) = 2^128` overflows in hardware and is rejected here -/
+example : Rep 24 ((16777215 * 2 ^ 253 : Int).natAbs) := ⟨16777215, 253, by decide, by decide +kernel⟩
+example : ¬ (((rnd32 (2 ^ 277)).natAbs : Int) < 16777215 * 2 ^ 253) := by decide +kernel
+/-- `round_ties_to_even`: 9 is midway between the 3-bit numbers 8 and 10; `rndQ 3 9 = 8` (even
+significand 4) — the tie hypothesis is satisfiable -/
+example : ∃ k, rndQ 3 9 = 2 * k * 2 ^ gridShift 3 (9 : Rat).floor.toNat :=
+  (round_ties_to_even 3 9 (by decide +kernel)).1
+/-- `binary32_round_to_nearest` at a tie: 16777217 lies midway between the 24-bit numbers 16777216 and
+16777218; both are at distance 1 and `rnd32` returns the even one -/
+example : rnd32 16777217 = 16777216 ∧ (4194304 : Int).natAbs < 2 ^ 24 ∧ (8388609 : Int).natAbs < 2 ^ 24
+    ∧ (4194304 : Int) * 2 ^ 2 = 16777216 ∧ (8388609 : Int) * 2 ^ 1 = 16777218 := by decide +kernel
+
+/-- `generator_adjacency_spec` / `erdosRenyi_spec`: a path on 4 nodes is a simple edge list; the dispatch
+has all three outcomes -/
+example : SimpleEdges 4 [(0, 1), (2, 1), (2, 3)] := by
+  refine ⟨by simp, ?_⟩
+  simp [sameLink]
+example : erdosRenyiCall true false = some .byProbability ∧ erdosRenyiCall false true = some .byLinkCount
+    ∧ erdosRenyiCall true true = none ∧ erdosRenyiCall false false = none := by decide
 
 end Pyunicorn.Random
